@@ -116,6 +116,12 @@ CHECKS = {
 # what the seeded-change rounds 3 and 4 added (DESIGN.md 12.6)
 _ADDENDA = {
     "C01": " The initial state is handed over in C, Fortran and strided layouts.",
+    "C03": " One-sided transforms are among the presentation variants; the plan system records the start time for which propagators are requested.",
+    "C04": " Every configuration uses a complex Hermitian Hamiltonian; PT-TEBD runs include chain controls (a non-unital channel pre and post measurement, a unitary kick).",
+    "C07": " The plan system records the start time for which propagators are requested; the bath-dynamics cross-check covers all dagger orders, change_only, thermal and vacuum terms and first requests on a fresh object.",
+    "C11": " Numerical parts: closed form of the commuting model for T = 0.08 .. 2.5 (1e-8); Hermiticity / positivity for non-commuting models; a re-used GibbsParameters object.",
+    "C14": " Transient failures are raised by the Hamiltonian, the Lindblad rate or the Lindblad operator.",
+    "C15": " Part (e): parameters estimated from a time-dependent system (guess_tempo_parameters) under a shift of the origin.",
     "C06": " The degeneracy maps are demanded for affine images (large offset, small scale) of every eigenvalue pattern.",
     "C08": " Cases with control operations (pre and post, same step) go through compute_gradient_and_dynamics(control=...) and the chain rule; numerically differentiated cases are partly preceded by a use of the same system object with another time step.",
     "C09": " A field-independent mean-field system (t-dependent Hamiltonian, Lindblad rate and operator) is compared with plain TEMPO (numerical).",
@@ -123,9 +129,9 @@ _ADDENDA = {
     "C13": " PT-TEBD grids are also reached in two compute() calls followed by a call whose end step has been passed.",
     "C16": " Every abstract process tensor is also written tensor by tensor into a file-backed twin whose own compute_caps() must reproduce the in-memory caps (trace-preserving transforms).",
     "C17": " The mode matrix is replayed with the existing file appearing between the writer's last test and its open (a second real writer), and writers are interrupted by an exception inside the j-th propagation step (between file operations).",
-    "C18": " Controls stamped outside the computed range never act; every schedule of <= 2 step controls is also replayed through the gradient's backward pass (exact derivative from the term trajectories).",
+    "C18": " A Control object that served another start time before is re-used (cd-reused). Controls stamped outside the computed range never act; every schedule of <= 2 step controls is also replayed through the gradient's backward pass (exact derivative from the term trajectories).",
     "C19": " The model includes failing output (any redraw may raise) and the order of exit(); schedules with failing redraws are replayed.",
-    "C20": " The public attributes of every caller-supplied parameter object are compared before and after each re-use history; caller-supplied system_correlations are part of the layout/mutation enumeration.",
+    "C20": " The public attributes of every caller-supplied parameter object are compared before and after each re-use history; caller-supplied system_correlations are part of the layout/mutation enumeration; results are read again after the caller's arrays were overwritten; inputs nearly equal to inputs used before must respond linearly.",
 }
 for _k, _v in _ADDENDA.items():
     CHECKS[_k]["text"] += _v
